@@ -3,7 +3,41 @@
 -/
 import Dlismodel.Model.Checks
 import Dlismodel.Proofs.Api
+import Dlismodel.Standard
 namespace Dlis
+
+/-- one check of `check_objects`, by the name of the method -/
+def checkByName (w : World) (lf c f : Nat) (es : List Edge) (fid : Nat → Bool) : String → Except CheckErr Unit
+  | "_check_completeness" => checkCompleteness w lf c f
+  | "_check_channels_assigned_to_frames" => checkFrameChannels w lf c f es
+  | "_check_defining_origin_params" => if fid lf then .ok () else .error .fileIdMismatch
+  | "_check_references" => checkReferences w lf es
+  | _ => .error .noOrigin
+
+/-- a list of named checks, made one after the other; the first refusal ends it -/
+def runChecks (g : String → Except CheckErr Unit) : List String → Except CheckErr Unit
+  | [] => .ok ()
+  | n :: ns => match g n with
+    | .ok _ => runChecks g ns
+    | .error e => .error e
+
+/-- the model makes the checks of one logical file in the pinned order (which `checkOrder_eq` ties to the order of the
+calls in the live `LogicalFile.check_objects`) -/
+theorem checkObjects_follows_order (w : World) (lf c f : Nat) (es : List Edge) (fid : Nat → Bool) :
+    checkObjects w lf c f es fid = runChecks (checkByName w lf c f es fid) Standard.checkOrder := by
+  simp only [Standard.checkOrder, runChecks, checkByName, checkObjects, bind, Except.bind]
+  cases checkCompleteness w lf c f with
+  | error e => rfl
+  | ok _ =>
+    cases checkFrameChannels w lf c f es with
+    | error e => rfl
+    | ok _ =>
+      cases fid lf with
+      | false => rfl
+      | true =>
+        cases checkReferences w lf es with
+        | error e => rfl
+        | ok u => cases u; rfl
 
 theorem checkAll_ok (w : World) (c f : Nat) (es : List Edge) (fid : Nat → Bool) (l : List Nat)
     (h : checkAll w c f es fid l = .ok ()) : ∀ lf ∈ l, checkObjects w lf c f es fid = .ok () := by
